@@ -8,6 +8,7 @@ import s_sender
 import s_conc
 import s_dispatch
 import s_fault
+import s_real
 
 KERNEL = "Lean 4.33.0 kernel; axioms limited to propext, Classical.choice, Quot.sound (audited with #print axioms on every run)"
 HARNESS = "the correspondence harness (generators, canonicalisation) in /verif/harness"
@@ -151,7 +152,7 @@ PROPS = {
     "C16": {
         "lean": ["AriVerif.Props.C16"],
         "gen": [],
-        "streams": [s_conc.data_stream(["C16"], "data-cosim-outbound"), s_sender.stream],
+        "streams": [s_conc.data_stream(["C16"], "data-cosim-outbound"), s_sender.stream, s_real.stream_outbound],
         "trusted": [KERNEL, HARNESS, "the scheduler shim (harness/shim.py): its semantics for Lock/RLock, Queue (FIFO, unbounded), Event, Thread, ThreadPoolExecutor (FIFO work queue, <= n running, shutdown waits), socket (recv returns a non-empty prefix, b'' at EOF; sendall all-or-exception), virtual clock; the real code runs unmodified, module attributes are patched from the harness",
                     "contiguity of one sendall on a real socket is the OS's; queue.Queue being FIFO is CPython's"],
         "assumptions": ["messages are written by the single writer thread only"],
@@ -215,5 +216,90 @@ PROPS = {
                         "request) and checked on the real server by the enabled-set comparison of every chunk"],
         "rule": "as C04, plus Data scenarios (adapter calls only on pool-task threads: compared as effects per thread in lock-step) and the "
                 "constructor grid thread_pool_size in {None, -7..1000} x cpu_count in {1, 2, 8, 64, NotImplementedError} on both kinds",
+    },
+    "C01": {
+        "lean": ["AriVerif.Props.C01"],
+        "gen": [],
+        "streams": [s_conc.data_stream(["C01"], "data-cosim"), s_conc.data_fine_stream(["C01"])],
+        "trusted": [KERNEL, HARNESS, "the scheduler shim (harness/shim.py): Lock/RLock, Queue, Event, Thread, ThreadPoolExecutor (FIFO work queue, <= n running), scripted socket, virtual clock; line-level preemption via sys.settrace in the fine-grained streams",
+                    "Conc/Item.lean is hand-written; it is tied to the real DataProviderServer / SubscriptionManager / _ItemTaskManager by lock-step "
+                    "co-simulation: after every atomic chunk of the real run the model must take the same step with the same effects, the same "
+                    "enabled library threads and the same abstract state (every manager generation: queue, id, running flag, counter, persisted "
+                    "outcome; registered generation; reader-held task; pool queue; send queue), and the invariant Inv (executable mirror "
+                    "Conc/InvCheck.lean) is evaluated on every state reached",
+                    "the Data server is the item-indexed product of Conc.Item machines (Conc/Data.lean routes chunks per item); theorems are per item",
+                    "atomicity of lock-protected sections (reduction) is exercised by the fine-grained stream (line-level preemption, oracles only)"],
+        "assumptions": ["request ids pairwise distinct and SUB/USB alternating per item, SUB first (WF) — the property's own hypothesis",
+                        "adapter calls return (for the quiescence / progress statements)",
+                        "listener payloads are well-typed in the co-simulation (ill-typed ones: C07/C09)"],
+        "rule": "Data-server scenarios: 1-3 items, per item 1-12 alternating requests merged in random wire order, pool 1-4, inbound stream cut per line / merged / at random byte offsets (both terminators), snapshot availability in {True, False, None, raises}, subscribe / unsubscribe outcomes in {ok, SubscribeError, FailureError, RuntimeError}, 0-2 events submitted from inside adapter calls (any item), 0-2 adapter-owned threads with 1-4 listener calls each, probe events after quiescence, credentials and early delivery; every run under a seeded random schedule; lock-step comparison after every chunk; plus fine-grained runs (line-level preemption inside subscription.py / server.py); non-trivial = a request arrived while its item's dequeuer was working, or a skipped subscription (chunk-level), every run (fine-grained)",
+    },
+    "C02": {
+        "lean": ["AriVerif.Props.C02"],
+        "gen": [],
+        "streams": [s_conc.data_stream(["C02"], "data-cosim"), s_conc.data_fine_stream(["C02"])],
+        "trusted": [KERNEL, HARNESS, "the scheduler shim (harness/shim.py): Lock/RLock, Queue, Event, Thread, ThreadPoolExecutor (FIFO work queue, <= n running), scripted socket, virtual clock; line-level preemption via sys.settrace in the fine-grained streams",
+                    "Conc/Item.lean is hand-written; it is tied to the real DataProviderServer / SubscriptionManager / _ItemTaskManager by lock-step "
+                    "co-simulation: after every atomic chunk of the real run the model must take the same step with the same effects, the same "
+                    "enabled library threads and the same abstract state (every manager generation: queue, id, running flag, counter, persisted "
+                    "outcome; registered generation; reader-held task; pool queue; send queue), and the invariant Inv (executable mirror "
+                    "Conc/InvCheck.lean) is evaluated on every state reached",
+                    "the Data server is the item-indexed product of Conc.Item machines (Conc/Data.lean routes chunks per item); theorems are per item",
+                    "atomicity of lock-protected sections (reduction) is exercised by the fine-grained stream (line-level preemption, oracles only)"],
+        "assumptions": ["request ids pairwise distinct and SUB/USB alternating per item, SUB first (WF) — the property's own hypothesis",
+                        "adapter calls return (for the quiescence / progress statements)",
+                        "listener payloads are well-typed in the co-simulation (ill-typed ones: C07/C09)"],
+        "rule": "Data-server scenarios: 1-3 items, per item 1-12 alternating requests merged in random wire order, pool 1-4, inbound stream cut per line / merged / at random byte offsets (both terminators), snapshot availability in {True, False, None, raises}, subscribe / unsubscribe outcomes in {ok, SubscribeError, FailureError, RuntimeError}, 0-2 events submitted from inside adapter calls (any item), 0-2 adapter-owned threads with 1-4 listener calls each, probe events after quiescence, credentials and early delivery; every run under a seeded random schedule; lock-step comparison after every chunk; plus fine-grained runs (line-level preemption inside subscription.py / server.py); non-trivial = a request arrived while its item's dequeuer was working, or a skipped subscription (chunk-level), every run (fine-grained)",
+    },
+    "C03": {
+        "lean": ["AriVerif.Props.C03"],
+        "gen": [],
+        "streams": [s_conc.data_stream(["C03"], "data-cosim"), s_conc.data_fine_stream(["C03"])],
+        "trusted": [KERNEL, HARNESS, "the scheduler shim (harness/shim.py): Lock/RLock, Queue, Event, Thread, ThreadPoolExecutor (FIFO work queue, <= n running), scripted socket, virtual clock; line-level preemption via sys.settrace in the fine-grained streams",
+                    "Conc/Item.lean is hand-written; it is tied to the real DataProviderServer / SubscriptionManager / _ItemTaskManager by lock-step "
+                    "co-simulation: after every atomic chunk of the real run the model must take the same step with the same effects, the same "
+                    "enabled library threads and the same abstract state (every manager generation: queue, id, running flag, counter, persisted "
+                    "outcome; registered generation; reader-held task; pool queue; send queue), and the invariant Inv (executable mirror "
+                    "Conc/InvCheck.lean) is evaluated on every state reached",
+                    "the Data server is the item-indexed product of Conc.Item machines (Conc/Data.lean routes chunks per item); theorems are per item",
+                    "atomicity of lock-protected sections (reduction) is exercised by the fine-grained stream (line-level preemption, oracles only)"],
+        "assumptions": ["request ids pairwise distinct and SUB/USB alternating per item, SUB first (WF) — the property's own hypothesis",
+                        "adapter calls return (for the quiescence / progress statements)",
+                        "listener payloads are well-typed in the co-simulation (ill-typed ones: C07/C09)"],
+        "rule": "Data-server scenarios: 1-3 items, per item 1-12 alternating requests merged in random wire order, pool 1-4, inbound stream cut per line / merged / at random byte offsets (both terminators), snapshot availability in {True, False, None, raises}, subscribe / unsubscribe outcomes in {ok, SubscribeError, FailureError, RuntimeError}, 0-2 events submitted from inside adapter calls (any item), 0-2 adapter-owned threads with 1-4 listener calls each, probe events after quiescence, credentials and early delivery; every run under a seeded random schedule; lock-step comparison after every chunk; plus fine-grained runs (line-level preemption inside subscription.py / server.py); non-trivial = a request arrived while its item's dequeuer was working, or a skipped subscription (chunk-level), every run (fine-grained)",
+    },
+    "C17": {
+        "lean": ["AriVerif.Props.C17"],
+        "gen": [],
+        "streams": [s_conc.data_stream(["C17"], "data-cosim"), s_conc.data_fine_stream(["C17"])],
+        "trusted": [KERNEL, HARNESS, "the scheduler shim (harness/shim.py): Lock/RLock, Queue, Event, Thread, ThreadPoolExecutor (FIFO work queue, <= n running), scripted socket, virtual clock; line-level preemption via sys.settrace in the fine-grained streams",
+                    "Conc/Item.lean is hand-written; it is tied to the real DataProviderServer / SubscriptionManager / _ItemTaskManager by lock-step "
+                    "co-simulation: after every atomic chunk of the real run the model must take the same step with the same effects, the same "
+                    "enabled library threads and the same abstract state (every manager generation: queue, id, running flag, counter, persisted "
+                    "outcome; registered generation; reader-held task; pool queue; send queue), and the invariant Inv (executable mirror "
+                    "Conc/InvCheck.lean) is evaluated on every state reached",
+                    "the Data server is the item-indexed product of Conc.Item machines (Conc/Data.lean routes chunks per item); theorems are per item",
+                    "atomicity of lock-protected sections (reduction) is exercised by the fine-grained stream (line-level preemption, oracles only)"],
+        "assumptions": ["request ids pairwise distinct and SUB/USB alternating per item, SUB first (WF) — the property's own hypothesis",
+                        "adapter calls return (for the quiescence / progress statements)",
+                        "listener payloads are well-typed in the co-simulation (ill-typed ones: C07/C09)"],
+        "rule": "Data-server scenarios: 1-3 items, per item 1-12 alternating requests merged in random wire order, pool 1-4, inbound stream cut per line / merged / at random byte offsets (both terminators), snapshot availability in {True, False, None, raises}, subscribe / unsubscribe outcomes in {ok, SubscribeError, FailureError, RuntimeError}, 0-2 events submitted from inside adapter calls (any item), 0-2 adapter-owned threads with 1-4 listener calls each, probe events after quiescence, credentials and early delivery; every run under a seeded random schedule; lock-step comparison after every chunk; plus fine-grained runs (line-level preemption inside subscription.py / server.py); non-trivial = a request arrived while its item's dequeuer was working, or a skipped subscription (chunk-level), every run (fine-grained)",
+    },
+    "C19": {
+        "lean": ["AriVerif.Props.C19"],
+        "gen": [],
+        "streams": [s_conc.data_stream(["C19"], "data-cosim"), s_conc.data_fine_stream(["C19"]), s_real.stream_census],
+        "trusted": [KERNEL, HARNESS, "the scheduler shim (harness/shim.py): Lock/RLock, Queue, Event, Thread, ThreadPoolExecutor (FIFO work queue, <= n running), scripted socket, virtual clock; line-level preemption via sys.settrace in the fine-grained streams",
+                    "Conc/Item.lean is hand-written; it is tied to the real DataProviderServer / SubscriptionManager / _ItemTaskManager by lock-step "
+                    "co-simulation: after every atomic chunk of the real run the model must take the same step with the same effects, the same "
+                    "enabled library threads and the same abstract state (every manager generation: queue, id, running flag, counter, persisted "
+                    "outcome; registered generation; reader-held task; pool queue; send queue), and the invariant Inv (executable mirror "
+                    "Conc/InvCheck.lean) is evaluated on every state reached",
+                    "the Data server is the item-indexed product of Conc.Item machines (Conc/Data.lean routes chunks per item); theorems are per item",
+                    "atomicity of lock-protected sections (reduction) is exercised by the fine-grained stream (line-level preemption, oracles only)"],
+        "assumptions": ["request ids pairwise distinct and SUB/USB alternating per item, SUB first (WF) — the property's own hypothesis",
+                        "adapter calls return (for the quiescence / progress statements)",
+                        "listener payloads are well-typed in the co-simulation (ill-typed ones: C07/C09)"],
+        "rule": "Data-server scenarios: 1-3 items, per item 1-12 alternating requests merged in random wire order, pool 1-4, inbound stream cut per line / merged / at random byte offsets (both terminators), snapshot availability in {True, False, None, raises}, subscribe / unsubscribe outcomes in {ok, SubscribeError, FailureError, RuntimeError}, 0-2 events submitted from inside adapter calls (any item), 0-2 adapter-owned threads with 1-4 listener calls each, probe events after quiescence, credentials and early delivery; every run under a seeded random schedule; lock-step comparison after every chunk; plus fine-grained runs (line-level preemption inside subscription.py / server.py); non-trivial = a request arrived while its item's dequeuer was working, or a skipped subscription (chunk-level), every run (fine-grained)",
     },
 }
